@@ -108,6 +108,14 @@ def base_for(kind, rng):
         sp['om'][G.pk('A', 'A')] = {'t': 'SS'}
     if kind in ('permutation', 'rescale') and rng.random() < 0.6:
         G.add_cross_omegas(sp, rng, amp=(0.1, 0.6))
+    if kind in ('permutation', 'rescale'):
+        # contact distances given explicitly in some potentials (equal to or one grid step above the additive value): gen.build may then
+        # complete the assigned object in place through the reversed key
+        h = int(round(sum(sp['rho'].values()) * 1e9)) + sp['L']
+        for n_, key in enumerate(sorted(sp['pot'])):
+            if (h + n_) % 2 == 0:
+                a, b = key.split('|')
+                sp['pot'][key]['sigma'] = float(round(G.sigma_of(sp, a, b) + ((h + n_) % 4 // 2) * sp['dr'], 10))
     return sp
 
 
